@@ -62,7 +62,7 @@ def gen_cases(tier, seed):
     for i in range(nh):
         rng = common.rng_for("C03", seed, i)
         yield dict(i=1000 + i, kind="history", seed=common.case_seed(seed, "C03", i), n_frames=int(rng.integers(3, 41)),
-                   n_pairs=int(rng.integers(3, 31)), cell=bool(rng.random() < 0.6),
+                   n_pairs=int(rng.integers(3, 31)), sym=bool(rng.random() < 0.55), odd=int(rng.integers(0, 2)), cell=bool(rng.random() < 0.6),
                    length=int(rng.integers(3, 9 if tier == "quick" else 26)))
 
 
@@ -101,11 +101,22 @@ def sym_xyz(rng, n_frames, n_pairs):
     return xyz
 
 
-def make(rng, n_frames, n_pairs, cell, top=None, ids=None):
+def gen_xyz(rng, n_frames, n_atoms, sym):
+    """sym: centro-symmetric frames (stay centred under every exact operation); else arbitrary frames with a random
+    offset per frame (any atom count, so every remainder modulo the SIMD width 4 occurs)"""
+    if sym:
+        return sym_xyz(rng, n_frames, n_atoms // 2)
+    return (rng.normal(scale=1.0, size=(n_frames, n_atoms, 3)) + rng.uniform(-2, 2, (n_frames, 1, 3))).astype(np.float32)
+
+
+def make(rng, n_frames, n_atoms, cell, top=None, ids=None, sym=True):
     import mdtraj as md
     if top is None:
-        top, ids = sym_topology(n_pairs, rng)
-    xyz = sym_xyz(rng, n_frames, n_pairs)
+        top, ids = sym_topology((n_atoms + 1) // 2, rng)
+        if top.n_atoms != n_atoms:  # odd atom count: drop the last atom
+            top = top.subset(list(range(n_atoms)))
+            ids = ids[:n_atoms]
+    xyz = gen_xyz(rng, n_frames, n_atoms, sym)
     t = md.Trajectory(xyz.copy(), top)
     time = np.cumsum(rng.uniform(0.5, 2.0, n_frames)).astype(np.float32)
     t.time = time.copy()
@@ -237,7 +248,10 @@ def run_case(case, ctx):
         return run_immutable(case, ctx)
     import mdtraj as md
     rng = common.rng_for("C03h", case["seed"])
-    t, m = make(rng, case["n_frames"], case["n_pairs"], case["cell"])
+    sym = case.get("sym", True)
+    n_atoms0 = 2 * case["n_pairs"] + (0 if sym else case.get("odd", 0))
+    t, m = make(rng, case["n_frames"], n_atoms0, case["cell"], sym=sym)
+    ctx.observe("construction", "centro-symmetric" if sym else f"arbitrary(n_atoms%4={n_atoms0 % 4})")
     base_top, base_ids = t.topology, list(m["ids"])
     hist = dict(ops=[], rng=rng, centered_once=False, since_center=[])
     if not check_fields(ctx, t, m, "construct"):
@@ -290,7 +304,7 @@ def run_case(case, ctx):
                 k = int(rng.integers(1, 4)) if op == "mdjoin" else 1
                 others, oms = [], []
                 for _ in range(k):
-                    o, om = make(rng, int(rng.integers(1, 6)), na // 2, m["L"] is not None, top=t.topology, ids=m["ids"])
+                    o, om = make(rng, int(rng.integers(1, 6)), na, m["L"] is not None, top=t.topology, ids=m["ids"], sym=sym and na % 2 == 0)
                     if hist["centered_once"] and rng.random() < 0.7:
                         o.center_coordinates()
                         om["xyz"] = np.array(o.xyz, copy=True)
@@ -312,18 +326,23 @@ def run_case(case, ctx):
                 for o in others:
                     check_memory(ctx, out, o, label + "(other)", True)
             elif op == "stack":
-                o, om = make(rng, nf, int(rng.integers(1, 4)), False)
+                o, om = make(rng, nf, 2 * int(rng.integers(1, 4)), False)
                 out = t.stack(o)
                 m2 = dict(xyz=np.hstack([m["xyz"], om["xyz"]]), time=m["time"], L=m["L"], A=m["A"],
                           ids=m["ids"] + [10000 + 100 * step + i for i in om["ids"]])
                 strict, exact = False, True
                 check_memory(ctx, out, o, "stack(other)", False)
             elif op in ("atom_slice", "atom_slice_inplace"):
-                npair = na // 2
-                keep = np.where(rng.random(npair) < 0.7)[0]
-                if len(keep) < 2:
-                    keep = np.arange(min(2, npair))
-                idx = np.sort(np.concatenate([2 * keep, 2 * keep + 1]))
+                if sym and na % 2 == 0:
+                    npair = na // 2
+                    keep = np.where(rng.random(npair) < 0.7)[0]
+                    if len(keep) < 2:
+                        keep = np.arange(min(2, npair))
+                    idx = np.sort(np.concatenate([2 * keep, 2 * keep + 1]))
+                else:
+                    idx = np.where(rng.random(na) < 0.7)[0]
+                    if len(idx) < 3:
+                        idx = np.arange(min(3, na))
                 inplace = op == "atom_slice_inplace"
                 out = t.atom_slice(idx, inplace=inplace)
                 label = f"atom_slice(inplace={inplace})"
@@ -352,7 +371,7 @@ def run_case(case, ctx):
                 hist["centered_once"] = True
                 hist["since_center"] = []
             elif op == "superpose":
-                ref, _ = make(rng, 2, na // 2, False, top=t.topology, ids=m["ids"])
+                ref, _ = make(rng, 2, na, False, top=t.topology, ids=m["ids"], sym=sym and na % 2 == 0)
                 if rng.random() < 0.7:  # a reference away from the origin: superpose moves every frame to ITS centroid
                     ref.xyz = (ref.xyz + rng.uniform(-3, 3, (1, 1, 3))).astype(np.float32)
                 before = np.array(t.xyz, copy=True)
@@ -376,7 +395,7 @@ def run_case(case, ctx):
                 if inplace:
                     src = None
             elif op == "set_xyz":
-                new = sym_xyz(rng, nf, na // 2)
+                new = gen_xyz(rng, nf, na, sym and na % 2 == 0)
                 t.xyz = new.copy()
                 out, m2 = t, dict(m, xyz=new)
                 strict, exact, src = False, True, None
